@@ -29,6 +29,14 @@ async fn transfer_server(l: TcpListener) {
                 if s.read_exact(&mut h).await.is_err() { return; }
                 let up = u32::from_be_bytes([h[0], h[1], h[2], h[3]]) as usize;
                 let down = u32::from_be_bytes([h[4], h[5], h[6], h[7]]) as usize;
+                if up == 0xffff_ffff {
+                    // "half-close" mode: read the client's end-of-stream, keep the connection for `down` ms, answer late, close
+                    let mut b = [0u8; 64];
+                    loop { match s.read(&mut b).await { Ok(0) | Err(_) => break, Ok(_) => {} } }
+                    tokio::time::sleep(Duration::from_millis(down as u64)).await;
+                    let _ = s.write_all(b"LATE").await;
+                    return;
+                }
                 let mut buf = vec![0u8; 65536];
                 let mut left = up;
                 while left > 0 { match s.read(&mut buf[..left.min(65536)]).await { Ok(0) | Err(_) => return, Ok(n) => left -= n } }
@@ -137,10 +145,12 @@ async fn run_history(rep: &Reporter, dir: &std::path::Path, seed: u64, h: u64, t
     let mut sessions: Vec<Session> = vec![];
     let mut trace: Vec<String> = vec![];
     // idle mode: a fixed short scenario under small timeouts; otherwise seeded steps under long timeouts
-    let script: Vec<u64> = if idle_mode { vec![1, 2, 4, 8, 7, 0, 2, 4, 8, 11] } else { (0..r.range(6, 14)).map(|_| { let c = r.below(12); if c == 7 { 6 } else if c >= 10 { 13 } else { c } }).collect() };
+    // every sixth history is a fixed one around half-closed tunnels (the seeded ones reach that step too rarely)
+    let half_mode = !idle_mode && h % 6 == 4;
+    let script: Vec<u64> = if idle_mode { vec![1, 2, 4, 8, 7, 0, 2, 4, 8, 11] } else if half_mode { vec![1, 2, 2, 4, 14, 2, 14, 4, 14, 9] } else { (0..r.range(6, 14)).map(|_| { let c = r.below(13); if c == 7 { 6 } else if c == 12 { 14 } else if c >= 10 { 13 } else { c } }).collect() };
     for choice in script {
         let choice = if idle_mode && choice == 1 { 0 } else { choice };
-        let force_h2 = idle_mode;
+        let force_h2 = idle_mode || half_mode;
         let step: String;
         match choice {
             0 | 1 => {
@@ -240,6 +250,36 @@ async fn run_history(rep: &Reporter, dir: &std::path::Path, seed: u64, h: u64, t
                 }
                 model.tcp -= 1;
             }
+            14 => {
+                // half-closed tunnel: the client ends its direction, the destination keeps the connection for 1.2 s and answers late.
+                // While the tunnel is half-closed the outbound connection is still alive and must still be counted.
+                let cands: Vec<(usize, usize)> = sessions.iter().enumerate().flat_map(|(i, s)| (0..s.tunnels.len()).filter(move |j| matches!(s.tunnels[*j], Tun::H2 { .. })).map(move |j| (i, j))).collect();
+                if cands.is_empty() { continue; }
+                let (si, ti) = *r.pick(&cands);
+                let Tun::H2 { mut send, mut recv } = sessions[si].tunnels.remove(ti) else { continue };
+                let mut header = vec![];
+                header.extend_from_slice(&0xffff_ffffu32.to_be_bytes());
+                header.extend_from_slice(&1200u32.to_be_bytes());
+                send.reserve_capacity(8);
+                let _ = futures::future::poll_fn(|cx| send.poll_capacity(cx)).await;
+                let _ = send.send_data(Bytes::from(header), true);
+                model.up[1] += 8;
+                tokio::time::sleep(Duration::from_millis(300)).await;
+                {
+                    let (snap, stable) = wait_quiescent(&ep.ctx, &model).await;
+                    rep.evals(1);
+                    let mut tr = trace.clone();
+                    tr.push("half-close h2 tunnel (client ended its direction, destination still open)".into());
+                    compare(rep, "half-closed-tunnel h2 (destination still open)", h, &snap, stable, &model, &tr);
+                }
+                // the late answer, then the destination closes
+                let mut got = 0usize;
+                while let Ok(Some(Ok(b))) = tokio::time::timeout(Duration::from_secs(4), recv.data()).await { let _ = recv.flow_control().release_capacity(b.len()); got += b.len(); }
+                if got != 4 { rep.inconclusive("half-closed tunnel: late answer of the destination not received"); }
+                model.down[1] += got as u64;
+                model.tcp -= 1;
+                step = "half-closed tunnel ended by the destination".into();
+            }
             7 | 11 => {
                 // idle timeout (idle mode only): every open tunnel and UDP flow is closed by the endpoint
                 step = "idle-timeout (wait 2T)".into();
@@ -304,6 +344,7 @@ async fn run_history(rep: &Reporter, dir: &std::path::Path, seed: u64, h: u64, t
             }
         }
         trace.push(step.clone());
+        rep.tally(&format!("step driven: {}", step_class(&step)), 1);
         let (snap, stable) = wait_quiescent(&ep.ctx, &model).await;
         let m2 = model.clone();
         rep.evals(1);
@@ -475,7 +516,7 @@ pub fn run(args: &Args) -> i32 {
         args,
         "exploration",
         "history = 6-14 steps against the real Core::listen on loopback (TLS, HTTP/1.1 and HTTP/2, metrics listener): open/close session, open tunnel to a \
-         transfer server, failed connect, asymmetric transfer (up N+8 / down M bytes), graceful close / reset, idle timeout, connections that never become sessions (not TLS, unknown SNI, unknown ALPN, client gone mid-hello), _udp2 datagrams on up to 3 flows, \
+         transfer server, failed connect, asymmetric transfer (up N+8 / down M bytes), graceful close / reset, a half-closed tunnel (client ended, destination answers 1.2 s later), idle timeout, connections that never become sessions (not TLS, unknown SNI, unknown ALPN, client gone mid-hello), _udp2 datagrams on up to 3 flows, \
          UDP expiry; after every step: quiescence (two identical snapshots), in-process gauges/counters vs the model, GET /metrics text vs in-process values, \
          /health-check. Plus (L1, virtual time) UDP byte accounting: the real udp_pipe::DuplexPipe between a mirror client and a scripted forwarder side that sends or drops each datagram as the harness chooses; the counter callback must add up to the bytes actually relayed. distinct_nontrivial = distinct step sequences / datagram plans.",
     ));
